@@ -376,10 +376,11 @@ func c17CopyFile(src, dst string) error {
 var errC17EIO = errors.New("verif: injected I/O error")
 
 type c17FaultReader struct {
-	r     io.ReaderAt
-	k     int    // index of the failing call (-1: none)
-	kind  string // eio | eof0 | short | shorterr
-	calls int
+	r      io.ReaderAt
+	k      int    // index of the failing call (-1: none)
+	kind   string // eio | eof0 | short | shorterr | shortn
+	shortN int    // shortn: at most this many bytes are delivered, then io.EOF
+	calls  int
 }
 
 func (f *c17FaultReader) ReadAt(p []byte, off int64) (int, error) {
@@ -391,6 +392,12 @@ func (f *c17FaultReader) ReadAt(p []byte, off int64) (int, error) {
 			return 0, errC17EIO
 		case "eof0": // the file ends before the range
 			return 0, io.EOF
+		case "shortn": // at most shortN bytes, then end of file (a full read when the range is not longer)
+			if len(p) <= f.shortN {
+				return f.r.ReadAt(p, off)
+			}
+			n, _ := f.r.ReadAt(p[:f.shortN], off)
+			return n, io.EOF
 		case "short": // half of the range, then end of file
 			n, _ := f.r.ReadAt(p[:len(p)/2], off)
 			return n, io.EOF
@@ -635,6 +642,7 @@ type c17ParseCase struct {
 	Cuts  []int    `json:"cuts"`  // truncation lengths (-1 = intact)
 	Fault []int    `json:"fault"` // failing call index per case (-1 = none), parallel to Cuts
 	Kind  string   `json:"kind"`
+	ShortN int     `json:"shortn"`
 }
 
 func c17ParseOne(op string, r io.ReaderAt, sb *core.Superblock, addr uint64, args []uint64) (interface{}, error) {
@@ -700,6 +708,15 @@ func c17ParseOne(op string, r io.ReaderAt, sb *core.Superblock, addr uint64, arg
 			out = append(out, []interface{}{uint64(o.Index), hex.EncodeToString(o.Data)})
 		}
 		return out, nil
+	case "read": // Dataset.Read: ReadObjectHeader + ReadDatasetFloat64 (class and call count only)
+		h, err := core.ReadObjectHeader(r, addr, sb)
+		if err != nil {
+			return nil, err
+		}
+		if _, err := core.ReadDatasetFloat64(r, h, sb); err != nil {
+			return nil, err
+		}
+		return []interface{}{}, nil
 	case "raw": // raw element bytes of the dataset at addr through the library's layout dispatch
 		h, err := core.ReadObjectHeader(r, addr, sb)
 		if err != nil {
@@ -942,7 +959,7 @@ func init() {
 			if kind == "" {
 				kind = "eio"
 			}
-			fr := &c17FaultReader{r: &c17ImgReader{b}, k: k, kind: kind}
+			fr := &c17FaultReader{r: &c17ImgReader{b}, k: k, kind: kind, shortN: c.ShortN}
 			func() {
 				defer func() {
 					if r := recover(); r != nil {
@@ -958,6 +975,74 @@ func init() {
 			}()
 		}
 		return map[string]interface{}{"res": res}, nil
+	}
+
+	// c17targets: the parser-level targets of a file: object headers, symbol-table structures, global heaps
+	bulk["c17targets"] = func(args []string) error {
+		if len(args) < 1 {
+			return errors.New("usage: c17targets <file>")
+		}
+		type tgt struct {
+			Op   string   `json:"op"`
+			Addr uint64   `json:"addr"`
+			Args []uint64 `json:"args,omitempty"`
+		}
+		out := []tgt{}
+		f, err := hdf5.Open(args[0])
+		if err != nil {
+			return json.NewEncoder(os.Stdout).Encode(out)
+		}
+		defer f.Close()
+		sb := f.Superblock()
+		seen := map[string]bool{}
+		add := func(op string, a uint64) {
+			k := fmt.Sprintf("%s@%d", op, a)
+			if !seen[k] {
+				seen[k] = true
+				out = append(out, tgt{Op: op, Addr: a})
+			}
+		}
+		stab := func(addr uint64) {
+			h, err := core.ReadObjectHeader(f.Reader(), addr, sb)
+			if err != nil {
+				return
+			}
+			var bt, hp uint64
+			for _, m := range h.Messages {
+				if m.Type == core.MsgSymbolTable && len(m.Data) >= 16 {
+					bt, hp = sb.Endianness.Uint64(m.Data[0:8]), sb.Endianness.Uint64(m.Data[8:16])
+				}
+			}
+			if bt == 0 && sb.Version == 0 && addr == sb.RootGroup {
+				bt, hp = sb.RootBTreeAddr, sb.RootHeapAddr
+			}
+			if bt != 0 {
+				add("lheap", hp)
+				add("gbtree", bt)
+				if ents, err := structures.ReadGroupBTreeEntries(f.Reader(), bt, sb); err == nil {
+					_ = ents
+				}
+			}
+		}
+		f.Walk(func(p string, o hdf5.Object) {
+			switch x := o.(type) {
+			case *hdf5.Group:
+				if a := x.VerifAddress(); a != 0 {
+					add("ohdr", a)
+					add("attrs", a)
+					stab(a)
+				}
+			case *hdf5.Dataset:
+				add("ohdr", x.Address())
+				add("attrs", x.Address())
+				if _, err := x.Read(); err == nil {
+					add("read", x.Address())
+				}
+			case *hdf5.NamedDatatype:
+				add("ohdr", x.VerifAddress())
+			}
+		})
+		return json.NewEncoder(os.Stdout).Encode(out)
 	}
 
 	// c17whist: replay a write history (same format as `hist`) on a given path and report the per-call results;
